@@ -171,8 +171,26 @@ struct has_overloads
                                        std::is_same<T, unsigned long long>::value> {};
 
 template <class T, bool = has_overloads<T>::value>
-struct Ov { // narrow types: only the generic templates exist
-    static void check(T) {}
+struct Ov { // narrow types: only the generic templates exist; a call of the overloaded names promotes the argument to int
+    static void check(T x) {
+        // is_power_of_two of a negative value is false with or without sign extension
+        C20_EQ(tlx::is_power_of_two(x), ref_is_pow2((wide)x), "C20/is_power_of_two", call1("is_power_of_two [promoted]", show(x)));
+        if (x < 0) return; // sign extension changes the bit pattern: nothing documented for the other helpers
+        const unsigned W = width<T>();
+        const uint64_t pat = pattern(x);
+        C20_EQ(tlx::popcount(x), ref_popcount(pat, W), "C20/popcount", call1("popcount [promoted]", show(x)));
+        C20_EQ(tlx::ffs(x), ref_ffs(pat, W), "C20/ffs", call1("ffs [promoted]", show(x)));
+        C20_EQ(tlx::integer_log2_floor(x), x == 0 ? 0 : ref_log2_floor((uwide)(wide)x), "C20/integer_log2_floor",
+               call1("integer_log2_floor [promoted]", show(x)));
+        C20_EQ(tlx::integer_log2_ceil(x), x <= 1 ? 0 : ref_log2_ceil((uwide)(wide)x), "C20/integer_log2_ceil",
+               call1("integer_log2_ceil [promoted]", show(x)));
+        if (x > 0) { // the result type is int: always representable
+            C20_EQ(tlx::round_up_to_power_of_two(x), ref_pow2_up((wide)x), "C20/round_up_to_power_of_two",
+                   call1("round_up_to_power_of_two [promoted]", show(x)));
+            C20_EQ(tlx::round_down_to_power_of_two(x), ref_pow2_down((wide)x), "C20/round_down_to_power_of_two",
+                   call1("round_down_to_power_of_two [promoted]", show(x)));
+        }
+    }
 };
 template <class T>
 struct Ov<T, true> {
@@ -223,6 +241,9 @@ inline void check_templates(T x) {
         C20_EQ(tlx::integer_log2_floor_template(x), x == 0 ? 0 : ref_log2_floor((uwide)(wide)x),
                "C20/integer_log2_floor_template", call1("integer_log2_floor_template", show(x)));
     if (x > 0) {
+        // largest power of two <= x: always representable
+        C20_EQ(tlx::round_down_to_power_of_two_template(x), ref_pow2_down((wide)x), "C20/round_down_to_power_of_two_template",
+               call1("round_down_to_power_of_two_template", show(x)));
         wide up = ref_pow2_up((wide)x);
         // narrower-than-int signed types convert back modulo 2^W without UB; int and wider would overflow
         if (representable<T>(up))
@@ -307,6 +328,42 @@ inline void check_bits64(uint64_t x) {
     C20_EQ(tlx::popcount_generic64(x), ref_popcount(x, 64), "C20/popcount_generic64", call1("popcount_generic64", show(x)));
     C20_EQ(tlx::bswap64(x), ref_bswap(x, 64), "C20/bswap64", call1("bswap64", show(x)));
     C20_EQ(tlx::bswap64_generic(x), ref_bswap(x, 64), "C20/bswap64_generic", call1("bswap64_generic", show(x)));
+}
+
+//! popcount(const void* data, size_t size): number of one bits in the byte range. The range is copied into an exact-size
+//! heap block at byte offset `misalign` of a block of its own, so that every alignment of the start is exercised and an
+//! access outside [data, data + size) is an ASan report.
+inline void check_popcount_range(const unsigned char* bytes, size_t size, size_t misalign) {
+    unsigned char* block = new unsigned char[misalign + size];
+    size_t want = 0;
+    for (size_t i = 0; i < size; ++i) block[misalign + i] = bytes[i], want += ref_popcount(bytes[i], 8);
+    size_t got = tlx::popcount(static_cast<const void*>(block + misalign), size);
+    delete[] block;
+    if (__builtin_expect(got != want, 0))
+        fail_eq("C20/popcount-range", "popcount(data, " + std::to_string(size) + ") at byte offset " + std::to_string(misalign) + " of the block", (wide)got,
+                (wide)want);
+}
+
+//! calls f.template operator()<T>() for the type number t of the ten integer types
+template <class F>
+inline void with_type(int t, F&& f) {
+    switch (t) {
+    case 0: f.template run<uint8_t>(); break;
+    case 1: f.template run<int8_t>(); break;
+    case 2: f.template run<uint16_t>(); break;
+    case 3: f.template run<int16_t>(); break;
+    case 4: f.template run<unsigned>(); break;
+    case 5: f.template run<int>(); break;
+    case 6: f.template run<unsigned long>(); break;
+    case 7: f.template run<long>(); break;
+    case 8: f.template run<unsigned long long>(); break;
+    default: f.template run<long long>(); break;
+    }
+}
+const int N_INT_TYPES = 10;
+inline const char* type_name(int t) {
+    static const char* const N[10] = {"u8", "i8", "u16", "i16", "u", "i", "ul", "l", "ull", "ll"};
+    return N[t];
 }
 
 inline uint64_t mix64(uint64_t z) { // splitmix finaliser: derives secondary arguments from the primary one
